@@ -70,9 +70,16 @@ fn parse_header(header: &str) -> Result<Header, ParseError> {
             })
         }
         Some(UNKNOWN) => {
-            while iterator.next_if(|&s| s != NEWLINE).is_some() {}
-
-            Addresses::Unknown
+            // Everything between the protocol and the line break is ignored, however many
+            // fields it has, so the line break is located directly instead of by field.
+            return match header.find(CARRIAGE_RETURN) {
+                Some(_) if header.ends_with(PROTOCOL_SUFFIX) => Ok(Header {
+                    header: Cow::Borrowed(header),
+                    addresses: Addresses::Unknown,
+                }),
+                Some(end) if end + 1 < header.len() => Err(ParseError::InvalidSuffix),
+                _ => Err(ParseError::MissingNewLine),
+            };
         }
         Some(protocol) if protocol.is_empty() && iterator.peek().is_none() => {
             return Err(ParseError::MissingProtocol)
